@@ -4,6 +4,8 @@
   construction; on the implementation it is observed by the correspondence check (snapshots after
   every call). The theorems below are the index rules and the cumulative structure.
 -/
+import VK.Lemmas.Rescore
+import VK.Lemmas.RandomTransfer
 import VK.Model.Replay
 import Mathlib.Tactic.Linarith
 
@@ -126,5 +128,118 @@ example :
                         { round := 2, remaining := [[1]], eliminated := [[2]] }]
     getElected st (-1) = .ok [[0]] ∧ getEliminated st 2 = .ok [[2]] ∧ getRanking st (-1) = .ok [[0], [1], [2]] ∧
     getElected st 3 = .raised .indexError ∧ getRemaining st (-4) = .raised .indexError := by decide +kernel
+
+/-! ### the profile reported for a round of an STV count -/
+
+/-- weights stay non-negative through a step (either built-in transfer rule, positive threshold) -/
+theorem stvStep_nonneg (cfg : STVCfg) (init : Profile) (q : Int) (ω : STVOracle) (rnd : Nat)
+    (S S' : CState) (prev r : RoundState) (recs : List RoundState)
+    (hT : GoodTransfers cfg) (hq : 0 < q) (inv : StvInv init.cands S prev recs) (hl : Linked S prev)
+    (hnn : ∀ b ∈ S.bs, 0 ≤ b.2) (h : stvStep cfg init q ω rnd S prev = .ok (S', r)) :
+    ∀ b ∈ S'.bs, 0 ≤ b.2 := by
+  rcases stvStep_cases cfg init q ω rnd S S' prev r h with
+    ⟨g, tbs, bs', habove, he, ha, hSb, _⟩ | ⟨_, _, hSb, _⟩ | ⟨_, _, _, _, _, _, hSb, _⟩
+  · obtain ⟨hWn, _⟩ := electChoice_spec cfg q ω rnd S prev g tbs inv.hop_nodup inv.rem he
+    have hge := electChoice_ge cfg q ω rnd S prev g tbs hl inv.hop_nodup habove he
+    rw [hSb]
+    exact (hT S.hopeful q (ω.sample rnd) (fun _ => false) (fun _ => false) g.flatten S.bs bs'
+      hq hnn hWn hge (by intro w _ _; simp [wsum]) (by intro w _ h; cases h) ha).1
+  · intro b hb
+    rw [hSb] at hb
+    obtain ⟨b0, _, rfl⟩ := List.mem_map.1 hb
+    exact le_refl _
+  · rw [hSb]; exact hnn
+
+/-- what holds of every recorded round together with the count state reached after it -/
+def RoundOK (x : RoundState × CState) : Prop :=
+  x.1.remaining.flatten.Perm x.2.hopeful ∧ Linked x.2 x.1 ∧ ∀ b ∈ x.2.bs, 0 ≤ b.2
+
+theorem stvLoop_rounds_ok (cfg : STVCfg) (init : Profile) (q : Int) (ω : STVOracle)
+    (hT : GoodTransfers cfg) (hq : 0 < q) (hi : init.cands.Nodup)
+    (fuel : Nat) (S : CState) (prev : RoundState) (acc tr : List (RoundState × CState))
+    (hcs : ∀ c ∈ S.hopeful, c ∈ init.cands) (inv : StvInv init.cands S prev (acc.map (·.1)))
+    (hl : Linked S prev) (hnn : ∀ b ∈ S.bs, 0 ≤ b.2) (hacc : ∀ x ∈ acc, RoundOK x)
+    (h : stvLoop cfg init q ω fuel S prev acc = .ok tr) : ∀ x ∈ tr, RoundOK x := by
+  induction fuel generalizing S prev acc with
+  | zero =>
+    unfold stvLoop at h
+    split at h
+    · injection h with h; subst h; intro x hx; exact hacc x (List.mem_reverse.1 hx)
+    · cases h
+  | succ fuel ih =>
+    unfold stvLoop at h
+    split at h
+    · injection h with h; subst h; intro x hx; exact hacc x (List.mem_reverse.1 hx)
+    · cases hs : stvStep cfg init q ω (prev.round + 1) S prev with
+      | ok Sr =>
+        obtain ⟨S', r⟩ := Sr
+        simp only [hs, bind, Outcome.bind] at h
+        obtain ⟨inv', hsub, _⟩ := stvStep_inv cfg init q ω _ S S' prev r _ hi hcs inv hs
+        have hl' := stvStep_linked cfg init q ω _ S S' prev r hs
+        have hnn' := stvStep_nonneg cfg init q ω _ S S' prev r _ hT hq inv hl hnn hs
+        refine ih S' r ((r, S') :: acc) (fun c hc => hcs c (hsub c hc)) (by simpa using inv') hl' hnn' ?_ h
+        intro x hx
+        rcases List.mem_cons.1 hx with rfl | hx
+        · exact ⟨inv'.rem, hl', hnn'⟩
+        · exact hacc x hx
+      | raised e => simp [hs, bind, Outcome.bind] at h
+      | oracleMismatch => simp [hs, bind, Outcome.bind] at h
+      | outOfFuel => simp [hs, bind, Outcome.bind] at h
+
+/-- **C09 for the STV family: the profile of every round.** For a finished count (fractional or
+random transfer, positive threshold, profile of untied ranked ballots with positive weights) and
+every recorded round: the profile reported for that round has exactly the candidates remaining
+after it, and re-scoring it (first-place votes) reproduces the tallies recorded for the round. -/
+theorem C09_stv_round_profiles (cfg : STVCfg) (p : Profile) (ω : STVOracle) (res : STVResult)
+    (hf : cfg.transfer = .fractional ∨ cfg.transfer = .random)
+    (hq : 0 < threshold cfg.quota cfg.m p.total) (hc : p.cands.Nodup)
+    (hw : ∀ b ∈ p.ballots, 0 < b.weight)
+    (hne : ∀ b ∈ p.ballots, b.ranking ≠ [])
+    (hsingle : ∀ b ∈ p.ballots, ∀ s ∈ b.ranking, s.length = 1)
+    (hcast : ∀ b ∈ p.ballots, ∀ c ∈ b.ranking.flatten, c ∈ p.cands)
+    (hrun : stvRun cfg p ω = .ok res) :
+    ∀ x ∈ res.trace, (currentProfile x.2).cands.Perm x.1.remaining.flatten ∧
+      firstPlaceVotes (currentProfile x.2) = .ok x.1.scores := by
+  have hT : GoodTransfers cfg := hf.elim (goodTransfers_fractional cfg) (goodTransfers_random cfg)
+  have hfpv := fpv_link p hne hsingle hcast
+  unfold stvRun at hrun
+  split at hrun; · cases hrun
+  split at hrun; · cases hrun
+  split at hrun; · cases hrun
+  simp only [hfpv, bind, Outcome.bind] at hrun
+  cases hl : stvLoop cfg p (threshold cfg.quota cfg.m p.total) ω (p.cands.length + 2) (stvInitState p)
+      (initialState p.cands (some (tallies (stvInitState p).bs p.cands)))
+      [(initialState p.cands (some (tallies (stvInitState p).bs p.cands)), stvInitState p)] with
+  | ok tr =>
+    simp only [hl, pure, Outcome.ok.injEq] at hrun
+    subst hrun
+    set sc0 := tallies (stvInitState p).bs p.cands with hsc0
+    set st0 := initialState p.cands (some sc0) with hst0
+    have hrem0 : st0.remaining.flatten.Perm p.cands := by
+      have := scoreToRanking_perm sc0
+      rw [hsc0, tallies_keys] at this
+      simpa [hst0, initialState] using this
+    have inv0 : StvInv p.cands (stvInitState p) st0 ([(st0, stvInitState p)].map (·.1)) := by
+      refine ⟨hc, hrem0, ?_, ?_, ?_, trivial⟩
+      · simp [stvInitState, electedIn, hst0, initialState]
+      · simp [stvInitState, electedIn, eliminatedIn, hst0, initialState]
+      · simpa [electedIn, eliminatedIn, hst0, initialState] using hrem0
+    have hl0 : Linked (stvInitState p) st0 :=
+      ⟨by simp [hst0, initialState, hsc0, stvInitState], by simp [hst0, initialState]⟩
+    have hnn0 : ∀ b ∈ (stvInitState p).bs, 0 ≤ b.2 := by
+      intro b hb
+      simp only [stvInitState, List.mem_map] at hb
+      obtain ⟨b0, hb0, rfl⟩ := hb
+      exact le_of_lt (hw b0 hb0)
+    have hall := stvLoop_rounds_ok cfg p _ ω hT hq hc _ _ _ _ tr (fun c hc' => hc') inv0 hl0 hnn0
+      (by intro x hx; simp only [List.mem_singleton] at hx; subst hx; exact ⟨hrem0, hl0, hnn0⟩) hl
+    intro x hx
+    obtain ⟨hperm, hlk, hnn⟩ := hall x hx
+    refine ⟨by simpa [currentProfile] using hperm.symm, ?_⟩
+    rw [fpv_current x.2 hnn, hlk.1]
+  | raised e => simp [hl] at hrun
+  | oracleMismatch => simp [hl] at hrun
+  | outOfFuel => simp [hl] at hrun
+
 
 end VK
